@@ -81,6 +81,20 @@ def _cp(v):
     return v
 
 
+def local(st: "St", name: str, kind=None):
+    """value of a local a sidecar invariant talks about.  Absent from the function (renamed or removed by a refactoring) or bound to
+    something the sidecar has no model for -> PyvcUnsupported (the function's obligations become UNDECIDED, never a violation);
+    assigned by the function but not bound on this path -> UNBOUND (the caller states False: reading it is a run-time error)."""
+    if name not in st.env:
+        raise PyvcUnsupported(f"the sidecar's invariant names the local `{name}`, which this version of the function does not assign")
+    v = st.env[name]
+    if v is UNBOUND:
+        return UNBOUND
+    if kind is not None and not isinstance(v, kind):
+        raise PyvcUnsupported(f"local `{name}` holds a {type(v).__name__} where the sidecar models a {getattr(kind, '__name__', kind)}")
+    return v
+
+
 class LoopSpec:
     def __init__(self, invariant: Callable[[St], Any], ghosts=(), step_post: Optional[Callable] = None,
                  havoc_like: Optional[Dict[str, Callable[[str], Any]]] = None, name=None,
